@@ -57,6 +57,7 @@ package tensor
 //@ func tensor.Itol
 //@   props C03 C20
 //@   mode rank strides
+//@   config maxrank_thorough 4
 //@   let n = len(strides)
 //@   requires [strides] forall d :: 0 <= d && d < len(strides) ==> strides[d] > 0
 //@   requires [shape] len(shape) >= len(strides)
